@@ -336,3 +336,103 @@ def address_reuse_sweep(chk: Check, n_pairs: int) -> None:
         "compared_ops": chk.stats["compared_ops"] - before,
         "wall_s": round(time.time() - t0, 1),
     }
+
+
+def hashseed_sweep(chk: Check, per_contract: int) -> None:
+    """Every usable corpus contract is analysed (all detectors) under `per_contract` interpreter
+    hash seeds other than the reference's, eight contracts per interpreter.  Hash-seed dependence
+    needs no history, only the right input: the random sessions visit a contract under another
+    seed only by chance, this sweep visits every one."""
+    ctx = chk.ctx
+    items = [c for c in ctx.contracts if ctx.info[c]["lines"] <= 400]
+    dets = list(ctx.detectors)
+    specs: List[Dict[str, Any]] = []
+    for rnd in range(per_contract):
+        order = _slice(chk, items, len(items), "hs%d" % rnd)
+        for s in range(0, len(order), 8):
+            ops = [
+                {"op": "single", "c": cid, "dets": dets, "runs": None, "s1": "id", "uid": u}
+                for u, cid in enumerate(order[s : s + 8])
+            ]
+            hs = ctx.hashseeds[(s // 8 + rnd * 5) % len(ctx.hashseeds)]
+            specs.append({"ops": ops, "hashseed": hs, "index": 6000000 + len(specs)})
+    t0 = time.time()
+    before = chk.stats["compared_ops"]
+    for i in range(0, len(specs), 128):
+        chk.run_batch(specs[i : i + 128], 900.0)
+        if len(chk.violations) >= 5:
+            break
+    log(f"[c14:hashseed] sessions={len(specs)} t={time.time()-chk.t0:.0f}s")
+    chk.stats["sweep_hashseed"] = {
+        "contracts": len(items),
+        "hash_seeds_per_contract": per_contract,
+        "sessions": len(specs),
+        "compared_ops": chk.stats["compared_ops"] - before,
+        "wall_s": round(time.time() - t0, 1),
+    }
+
+
+def cold_start_sweep(chk: Check, max_sites: int = 10, max_points: int = 24) -> None:
+    """First-use windows.  An operation is executed twice in one fresh interpreter under a tracer
+    that counts call and line events per tealer function; a function whose counts differ between
+    the two executions runs code on first use only (lazy initialisation of process-wide state).
+    Each such function is then aborted at every line event of its first entry (spread when there
+    are more than `max_points`), in the very first operation of a fresh interpreter, and other
+    contracts are analysed afterwards in the same interpreter.  A reference computed first can
+    never see such a window; a session that starts cold and fails there can."""
+    ctx = chk.ctx
+    small = [c for c in ctx.small if c in ctx.contracts] or ctx.contracts
+    with_subs = [c for c in small if c in ctx.with_subs] or small
+    c1 = _slice(chk, with_subs, 1, "cold1")[0]
+    c2 = _slice(chk, [c for c in small if c != c1], 1, "cold2")[0]
+    dets = list(ctx.detectors)
+    shapes: List[Dict[str, Any]] = [
+        {"op": "single", "c": c1, "dets": dets, "runs": None, "s1": "id"},
+        {"op": "cli", "c": c1, "argv": list(gen.JSON_ARGV), "s1": "id"},
+    ]
+    t0 = time.time()
+    specs: List[Dict[str, Any]] = []
+    found: Dict[str, Any] = {}
+    for shape in shapes:
+        probe = [dict(shape, trace="enumerate_lines", uid=0), dict(shape, trace="enumerate_lines", uid=1)]
+        res = chk.runner.run({"ops": probe, "immut": False}, 0, timeout=900)
+        evs = res.get("events", [])
+        if len(evs) < 2 or "sites" not in evs[0] or "sites" not in evs[1]:
+            chk.harness_problems.append("cold-start sweep: enumeration session did not complete")
+            return
+        chk.stats["traced_call_events"] += evs[0].get("events", 0) + evs[1].get("events", 0)
+        a, b = evs[0], evs[1]
+        keys = sorted(set(a["sites"]) | set(b["sites"]))
+        first_only = [
+            k for k in keys
+            if a["sites"].get(k, 0) != b["sites"].get(k, 0) or a.get("site_lines", {}).get(k, 0) != b.get("site_lines", {}).get(k, 0)
+        ]
+        found[shape["op"]] = first_only
+        for key in first_only[:max_sites]:
+            f, fn = key.split(":")
+            n_first = int(a.get("site_first_lines", {}).get(key, 0))
+            if n_first <= 0:
+                continue
+            ns = list(range(1, n_first + 1))
+            if len(ns) > max_points:
+                ns = sorted(set(1 + (j * (n_first - 1)) // (max_points - 1) for j in range(max_points)))
+            for n in ns:
+                ops = [
+                    dict(shape, uid=0, fault={"kind": "exc_line", "file": f, "func": fn, "k": 1, "n": n, "exc": "MemoryError"}),
+                    {"op": "single", "c": c2, "dets": dets, "runs": None, "s1": "id", "uid": 1},
+                    dict(shape, uid=2),
+                ]
+                specs.append({"ops": ops, "hashseed": ctx.hashseeds[len(specs) % len(ctx.hashseeds)], "index": 7000000 + len(specs), "faulty": True})
+    before = chk.stats["faults_fired"].get("exc_line", 0)
+    for i in range(0, len(specs), 128):
+        chk.run_batch(specs[i : i + 128], 900.0)
+        if len(chk.violations) >= 5:
+            break
+    log(f"[c14:coldstart] first-use functions={sum(len(v) for v in found.values())} sessions={len(specs)} t={time.time()-chk.t0:.0f}s")
+    chk.stats["sweep_cold_start"] = {
+        "contracts": [c1, c2],
+        "functions_with_first_use_only_code": found,
+        "sessions": len(specs),
+        "faults_fired": chk.stats["faults_fired"].get("exc_line", 0) - before,
+        "wall_s": round(time.time() - t0, 1),
+    }
